@@ -32,8 +32,16 @@ ASSUMPTIONS = [
 ]
 
 
-def _pattern_of_key(e: ast.AST, prefix_names):
-    """Key pattern of a dict key expression: («name»_x | literal | None)."""
+def _pattern_of_key(e: ast.AST, prefix_names, fn=None):
+    """Key pattern of a dict key expression: («name»_x | literal | None).  A local name that is bound exactly once in `fn` (to a
+    literal or an f-string) stands for that expression (`state_name = f"{prefix}_s"`)."""
+    if isinstance(e, ast.Name) and fn is not None:
+        defs = [n.value for n in walk_no_nested(fn) if isinstance(n, ast.Assign) and len(n.targets) == 1 and
+                isinstance(n.targets[0], ast.Name) and n.targets[0].id == e.id]
+        others = [n for n in walk_no_nested(fn) if isinstance(n, (ast.AugAssign, ast.For, ast.comprehension)) and
+                  any(isinstance(x, ast.Name) and x.id == e.id and isinstance(x.ctx, ast.Store) for x in ast.walk(n.target))]
+        if len(defs) == 1 and not others and isinstance(defs[0], (ast.JoinedStr, ast.Constant)):
+            return _pattern_of_key(defs[0], prefix_names)
     if isinstance(e, ast.Constant) and isinstance(e.value, str):
         return e.value, "literal"
     if isinstance(e, ast.JoinedStr):
@@ -348,7 +356,7 @@ def _check_keys(repo, col, cinfo, kind, R="R-C04-keys", methods=("update_states"
         # which parameter is the states dict / the params dict
         for n in ast.walk(fi.node):
             if isinstance(n, ast.Subscript) and isinstance(n.value, ast.Name) and n.value.id in ("states", "params"):
-                pat, k = _pattern_of_key(n.slice, pn)
+                pat, k = _pattern_of_key(n.slice, pn, fi.node)
                 decl = ds if n.value.id == "states" else dp
                 if pat is None:
                     dynamic_keys = True
@@ -383,7 +391,7 @@ def _check_keys(repo, col, cinfo, kind, R="R-C04-keys", methods=("update_states"
         for n in walk_no_nested(fi.node):
             if isinstance(n, ast.Return) and isinstance(n.value, ast.Dict) and mname != "compute_current":
                 for kx in n.value.keys:
-                    pat, k = _pattern_of_key(kx, pn)
+                    pat, k = _pattern_of_key(kx, pn, fi.node)
                     col.check(pat in ds, R, fi, f"returned key {pat}",
                               "returned key is a declared state",
                               f"{mname} returns key `{pat}` which is not a declared state of {cinfo.name}", node=kx)
